@@ -20,12 +20,14 @@ inductive Prog.CallsLe : Nat → Prog → Prop
   | ret (b : Nat) (x : Item) : CallsLe b (.ret x)
   | raise (b : Nat) (e : Err) : CallsLe b (.raise e)
   | req (b : Nat) (r : Req) (k : Item → Prog) : r.ncalls ≤ b → (∀ x, CallsLe (b - r.ncalls) (k x)) → CallsLe b (.req r k)
+  | eff (b : Nat) (op : StoreOp) (k : Option Val → Prog) : (∀ x, CallsLe b (k x)) → CallsLe b (.eff op k)
 
 theorem Prog.CallsLe.mono {b b' : Nat} {p : Prog} (h : p.CallsLe b) (hle : b ≤ b') : p.CallsLe b' := by
   induction h generalizing b' with
   | ret b x => exact .ret _ x
   | raise b e => exact .raise _ e
   | req b r k hr _ ih => exact .req _ r k (by omega) (fun x => ih x (by omega))
+  | eff b op k _ ih => exact .eff _ op k (fun x => ih x hle)
 
 theorem Prog.CallsLe.bind {b : Nat} {p : Prog} {f : Item → Prog} (hp : p.CallsLe b) (hf : ∀ x, (f x).CallsLe 0) :
     (p.bind f).CallsLe b := by
@@ -33,6 +35,7 @@ theorem Prog.CallsLe.bind {b : Nat} {p : Prog} {f : Item → Prog} (hp : p.Calls
   | ret b x => exact (hf x).mono (Nat.zero_le _)
   | raise b e => exact .raise _ e
   | req b r k hr _ ih => exact .req _ r _ hr ih
+  | eff b op k _ ih => exact .eff _ op _ ih
 
 theorem ncallsList_map_parentHash (l : List Nat) : Req.ncallsList (l.map .parentHash) = 0 := by
   induction l with
@@ -132,6 +135,36 @@ theorem hashProg_calls (e : EdgeK) (a : Nat) (h : e.wf = true) : (e.hashProg a).
   | switch t => simp only [EdgeK.hashProg]; calls_auto
   | switchBranch => simp only [EdgeK.hashProg]; calls_auto
   | switchMissing i => simp only [EdgeK.hashProg]; calls_auto
+
+theorem evalProg_calls_c (e : EdgeK) (a : Nat) (h : e.wf = true ∨ ∃ s, e = .cache s) : (e.evalProg a).CallsLe e.evalCalls := by
+  rcases h with h | ⟨s, rfl⟩
+  · exact evalProg_calls e a h
+  · simp only [EdgeK.evalProg, EdgeK.evalCalls]
+    refine .req _ _ _ (by simp [Req.ncalls]) fun x => ?_
+    cases x with
+    | hash h =>
+      refine .eff _ _ _ fun r => ?_
+      cases r with
+      | some v => exact .ret _ _
+      | none =>
+        refine .req _ _ _ (by simp [Req.ncalls]) fun y => ?_
+        cases y with
+        | val v => exact .eff _ _ _ fun _ => .ret _ _
+        | hash _ | hout _ _ | node _ | tup _ => exact .raise _ _
+    | val _ | hout _ _ | node _ | tup _ => exact .raise _ _
+
+theorem hashProg_calls_c (e : EdgeK) (a : Nat) (h : e.wf = true ∨ ∃ s, e = .cache s) : (e.hashProg a).CallsLe e.hashCalls := by
+  rcases h with h | ⟨s, rfl⟩
+  · exact hashProg_calls e a h
+  · exact staticHash_calls _ _ _ fun _ => .ret _ _
+
+theorem calls_le_one_c (e : EdgeK) (h : e.wf = true ∨ ∃ s, e = .cache s) : e.hashCalls + e.evalCalls ≤ 1 := by
+  rcases h with h | ⟨s, rfl⟩
+  · cases e with
+    | byValue i => cases i <;> simp [EdgeK.hashCalls, EdgeK.evalCalls]
+    | impure i => cases i <;> simp [EdgeK.hashCalls, EdgeK.evalCalls]
+    | _ => simp [EdgeK.hashCalls, EdgeK.evalCalls]
+  · simp [EdgeK.hashCalls, EdgeK.evalCalls]
 
 /-- a node calls in one of its two generators only, and at most once -/
 theorem calls_le_one (e : EdgeK) (h : e.wf = true) : e.hashCalls + e.evalCalls ≤ 1 := by
